@@ -23,7 +23,7 @@
    powspace / norm_p (libm pow) -- tied by tolerance and searched on every run. *)
 From Coq Require Import List Arith Reals Permutation Sorted QArith Qcanon ZArith.
 From OV Require Import Base.Panic Base.Arith Model.Complex Model.Vector Model.VecOps
-                       Proofs.Vector Proofs.VectorR Proofs.VectorQc Proofs.VectorCx Proofs.ParDotFloat Proofs.VectorFloat
+                       Proofs.Vector Proofs.VectorR Proofs.VectorQc Proofs.VectorCx Proofs.VectorRp Proofs.ParDotFloat Proofs.VectorFloat
                        Inst.QcInst Inst.FloatInst.
 Import ListNotations.
 Local Open Scope nat_scope.
@@ -333,6 +333,33 @@ Check norm_chain : forall (v : list R), v <> [] ->
   exists m, norm_inf (F := SAR) Rabs v = Ok m /\
             (m <= norm_2 (F := SAR) Rabs v)%R /\ (norm_2 (F := SAR) Rabs v <= norm_1 (A := AR) v)%R.
 Print Assumptions norm_chain.
+Print Assumptions audit_separator.
+
+(* norm_p, with libm's pow on non-negative arguments taken as the real power function [rpow] (0^p = 0):
+   non-negative, absolutely homogeneous for p > 0, equal to norm_1 at p = 1 and to norm_2 at p = 2 (so their
+   triangle inequality and the chain are laws of norm_p at those exponents).  Minkowski for general p: not proved. *)
+Theorem norm_p_laws : forall (v : list R) (c p : R),
+  (forall m, norm_p (F := SAR) Rabs rpow v p = Ok m -> (0 <= m)%R) /\
+  ((0 < p)%R -> exists m, norm_p (F := SAR) Rabs rpow v p = Ok m /\
+                          norm_p (F := SAR) Rabs rpow (vscale (A := AR) v c) p = Ok (Rabs c * m)%R).
+Proof.
+  intros v c p. exact (Logic.conj (norm_p_nonneg_lemma v p) (norm_p_homog_lemma v c p)).
+Qed.
+Check norm_p_laws : forall (v : list R) (c p : R),
+  (forall m, norm_p (F := SAR) Rabs rpow v p = Ok m -> (0 <= m)%R) /\
+  ((0 < p)%R -> exists m, norm_p (F := SAR) Rabs rpow v p = Ok m /\
+                          norm_p (F := SAR) Rabs rpow (vscale (A := AR) v c) p = Ok (Rabs c * m)%R).
+Print Assumptions norm_p_laws.
+Print Assumptions audit_separator.
+
+Theorem norm_p_at_1_and_2 : forall (v : list R),
+  norm_p (F := SAR) Rabs rpow v 1%R = Ok (norm_1 (A := AR) v) /\
+  norm_p (F := SAR) Rabs rpow v 2%R = Ok (norm_2 (F := SAR) Rabs v).
+Proof. intros v. exact (Logic.conj (norm_p_1_lemma v) (norm_p_2_lemma v)). Qed.
+Check norm_p_at_1_and_2 : forall (v : list R),
+  norm_p (F := SAR) Rabs rpow v 1%R = Ok (norm_1 (A := AR) v) /\
+  norm_p (F := SAR) Rabs rpow v 2%R = Ok (norm_2 (F := SAR) Rabs v).
+Print Assumptions norm_p_at_1_and_2.
 Print Assumptions audit_separator.
 
 (* non-vacuity of the triangle / chain hypotheses: a concrete sum of equal-length real vectors is defined and
